@@ -33,7 +33,8 @@ def run(ctx):
         if ctx.replay:
             rp = json.load(open(ctx.replay))
             lines.append(rp["line"].replace("@WD@", wd))
-            meta.append((rp["label"], os.path.join(wd, "o0")))
+            saved = [x.split(":")[1] for x in lines[0].split(" ") if x.startswith("save:")]
+            meta.append((rp["label"], saved[-1] if saved else os.path.join(wd, "o0")))
         else:
             for f in samples:
                 for mode in ("raw", "default"):
@@ -46,6 +47,24 @@ def run(ctx):
                     mode = rng.choice(["raw", "default"])
                     lines.append(f"fs load:{f} edit:{sd}:{rng.randrange(1, 12)} save:{o}:{mode}:trace")
                     meta.append((f"{os.path.basename(f)}/edit{sd}/{mode}", o))
+            # models that keep the loaded string table (a block type the library does not know, made by renaming a type in the
+            # header) and models whose node names are empty strings with a stale index beyond the table (what cloning from a
+            # model with a larger table and renaming leaves behind): every written index must still be empty or in the table
+            if ctx.driver:
+                tw = C.run_lines_parallel(ctx.driver, [f"c07.walk {f}" for f in samples])
+                for f, w in zip(samples, tw):
+                    if "walk=ok" not in w:
+                        continue
+                    tys = [t for t in w.split(" types=")[1].split(" ")[0].split(",") if t and t not in ("NiNode", "BSFadeNode")]
+                    for mode in ("raw", "default"):
+                        o = os.path.join(wd, f"o{k}"); k += 1
+                        lines.append(f"fs load:{f} staleindex:2 save:{o}:{mode}:trace")
+                        meta.append((f"{os.path.basename(f)}/stale/{mode}", o))
+                        if tys:
+                            t = rng.choice(tys).replace("::", "~~")
+                            u = os.path.join(wd, f"u{k}"); o = os.path.join(wd, f"o{k}"); k += 1
+                            lines.append(f"fs relabel:{f}:{u}:{t} load:{u} staleindex:2 save:{o}:{mode}:trace")
+                            meta.append((f"{os.path.basename(f)}/unknown+stale/{mode}", o))
             types = C.run_lines(ctx.harness, ["gen.types"])[0].split(",")
             vers = C.run_lines(ctx.harness, ["gen.versions"])[0].split(",")
             for t in types:
@@ -88,7 +107,8 @@ def run(ctx):
             evaluations=len(lines), distinct_nontrivial=nontrivial, traces_validated_against_impl=len(walked),
             rule="files written by the library: every sample file saved raw and default, after 2 (quick) / 6 (thorough) random edit "
                  "sequences (delete/add/replace/reorder/prune through the public API), and generated instances of every registered "
-                 "type × 12 versions (30% with edits); each is decoded by the Lean header reader, walked along the size table to "
+                 "type × 12 versions (30% with edits), sample models with a block type made unknown and/or node names that are empty "
+                 "strings with a stale out-of-table index; each is decoded by the Lean header reader, walked along the size table to "
                  "the 8-byte footer and EOF; string table duplicates, max length, type table usage and every traced string index "
                  "field are checked. non-trivial = files with a size table whose walk was performed",
             not_loadable_or_not_synthesised=skipped, oracle_failures=len(bad),
